@@ -80,6 +80,19 @@ fn absorb_walk(out: &mut Outcome, w: &WalkStats) {
     s.probe("constraint_binding_steps", w.constraint_binding);
     s.probe("reference_kalman_mismatch", w.kf_mismatch);
     s.probe("visual_records", w.visual_records);
+    s.probe("pairs_near_gate_open", w.near_gate_open);
+    s.probe("pairs_near_gate_closed", w.near_gate_closed);
+    s.probe("steps_with_competing_tracks", w.multi_choice_steps);
+    s.probe("refvisual_asserted_steps", w.rv_asserted);
+    s.probe("refvisual_ambiguous_steps", w.rv_ambiguous);
+    s.probe("visual_attachments", w.rv_visual_attach);
+    s.probe("visual_contests", w.rv_contests);
+    s.probe("visual_contest_losers", w.rv_losers);
+    s.probe("visual_fallback_to_positional_rows", w.rv_fallback_rows);
+    s.probe("visual_track_too_short", w.rv_track_too_short);
+    s.probe("visual_feature_unusable_quality", w.rv_unusable_quality);
+    s.probe("visual_feature_unusable_area", w.rv_unusable_area);
+    s.probe("visual_votes_below_min", w.rv_votes_below_min);
 }
 
 /// pick the violation owned by `prop`; count the others
@@ -347,13 +360,15 @@ fn world_opts(prop: &str, thorough: bool, r: &mut Rng) -> WorldOpts {
     let sort_family = vec![Kind::Sort, Kind::BatchSort];
     let frames = if thorough { *r.pick(&[6usize, 12, 25, 60]) } else { *r.pick(&[4usize, 8, 14]) };
     match prop {
-        "C01" => WorldOpts { kinds: all, max_frames: frames, max_scenes: 3, max_objects: 5, twins: true, lifecycle: true, batches: true, rotation: true, constraints: 1, features: true, stress: true },
-        "C03" => WorldOpts { kinds: all, max_frames: frames, max_scenes: 3, max_objects: 4, twins: true, lifecycle: true, batches: true, rotation: false, constraints: 0, features: true, stress: false },
-        "C02" => WorldOpts { kinds: sort_family, max_frames: frames, max_scenes: 2, max_objects: 5, twins: false, lifecycle: false, batches: true, rotation: true, constraints: 0, features: false, stress: true },
-        "C20" => WorldOpts { kinds: sort_family, max_frames: frames, max_scenes: 2, max_objects: 4, twins: false, lifecycle: false, batches: true, rotation: false, constraints: 1, features: false, stress: true },
-        "C04" => WorldOpts { kinds: sort_family, max_frames: frames, max_scenes: 4, max_objects: 3, twins: false, lifecycle: true, batches: true, rotation: true, constraints: 1, features: false, stress: true },
-        "C05" => WorldOpts { kinds: sort_family, max_frames: frames, max_scenes: 2, max_objects: 5, twins: false, lifecycle: true, batches: true, rotation: true, constraints: 1, features: false, stress: true },
-        _ => WorldOpts { kinds: vec![Kind::BatchSort], max_frames: frames, max_scenes: 4, max_objects: 3, twins: false, lifecycle: true, batches: true, rotation: true, constraints: 1, features: false, stress: true },
+        "C01" => WorldOpts { kinds: all, max_frames: frames, max_scenes: 3, max_objects: 5, twins: true, lifecycle: true, batches: true, rotation: true, constraints: 1, features: true, stress: true, long_life: 0, lookalikes: true, wide: false },
+        "C03" => WorldOpts { kinds: all, max_frames: frames, max_scenes: 3, max_objects: 4, twins: true, lifecycle: true, batches: true, rotation: false, constraints: 0, features: true, stress: false, long_life: 0, lookalikes: false, wide: false },
+        "C13" => WorldOpts { kinds: all, max_frames: frames, max_scenes: 2, max_objects: 3, twins: false, lifecycle: true, batches: true, rotation: false, constraints: 0, features: true, stress: false, long_life: if thorough { 300 } else { 60 }, lookalikes: false, wide: false },
+        "C12" => WorldOpts { kinds: vec![Kind::VisualSort, Kind::BatchVisualSort], max_frames: frames, max_scenes: 2, max_objects: 4, twins: false, lifecycle: false, batches: true, rotation: false, constraints: 0, features: true, stress: true, long_life: 0, lookalikes: true, wide: false },
+        "C02" => WorldOpts { kinds: sort_family, max_frames: frames, max_scenes: 2, max_objects: 5, twins: false, lifecycle: false, batches: true, rotation: true, constraints: 0, features: false, stress: true, long_life: 0, lookalikes: false, wide: false },
+        "C20" => WorldOpts { kinds: sort_family, max_frames: frames, max_scenes: 2, max_objects: 4, twins: false, lifecycle: false, batches: true, rotation: false, constraints: 1, features: false, stress: true, long_life: 0, lookalikes: false, wide: false },
+        "C04" => WorldOpts { kinds: sort_family, max_frames: frames, max_scenes: 4, max_objects: 3, twins: false, lifecycle: true, batches: true, rotation: true, constraints: 1, features: false, stress: true, long_life: 0, lookalikes: false, wide: false },
+        "C05" => WorldOpts { kinds: sort_family, max_frames: frames, max_scenes: 2, max_objects: 5, twins: false, lifecycle: true, batches: true, rotation: true, constraints: 1, features: false, stress: true, long_life: 0, lookalikes: false, wide: false },
+        _ => WorldOpts { kinds: vec![Kind::BatchSort], max_frames: frames, max_scenes: 4, max_objects: 3, twins: false, lifecycle: true, batches: true, rotation: true, constraints: 1, features: false, stress: true, long_life: 0, lookalikes: false, wide: true },
     }
 }
 
@@ -441,10 +456,9 @@ impl Engine for TrackerEngine {
             return out;
         }
         if !w0.violations.is_empty() {
-            // the reference run itself is wrong in a way another property owns:
-            // nothing sound to compare against
-            out.stats.probe("differential_skipped_reference_violates_other_property", 1);
-            return out;
+            // clauses owned by other properties failed in this run; the differential
+            // comparison below is still sound (it only reports differences between runs)
+            out.stats.probe("differential_run_with_foreign_clause_failures", 1);
         }
         // compare only up to the first step whose optimal assignment is not unique
         // by a margin: ties may legitimately resolve differently
@@ -691,6 +705,8 @@ impl Engine for TrackerEngine {
             "C03" => format!("one evaluation = one generated history with lifecycle calls on one of the four trackers under a seeded schedule, checked by the lifecycle/conservation model after every operation, plus re-executions of the same history under other auto-waste periodicities whose observable results must be identical. {common}"),
             "C04" => format!("one evaluation = one interleaved multi-scene history on Sort/BatchSort plus one execution per scene of its projection (fresh tracker, other shard count, schedule, hash seed, GC plan); canonical per-scene streams must be equal. {common}"),
             "C05" => format!("one evaluation = reference execution (1 shard, run-to-block schedule) plus 3 (quick) or 5 (thorough) variants with 1..8 shards under swarm schedules, fresh hash seeds and candidate-id streams; record streams must be identical (ids included for simple trackers, up to renaming for batch trackers) up to the first step with a non-unique optimum. {common}"),
+            "C13" => format!("one evaluation = one generated history (incl. long single-object lifetimes, quality sequences increasing / decreasing / constant / random around the collect threshold, features present or absent, history lengths 1..10, max observations 1..6) on one of the four trackers; after every quiescent operation every stored track's box/feature histories and appearance gallery are compared with the per-track model, as are the tracks returned by wasted(). {common}"),
+            "C12" => format!("one evaluation = one generated history on VisualSort/BatchVisualSort over an option swarm (metric, thresholds, min votes, minimal track length, max observations, use/collect quality, minimal area) with look-alike objects; every call's appearance claims, contests and the positional remainder are re-derived from the observable galleries by RefVisual and asserted outside margins. {common}"),
             "C06" => format!("one evaluation = one batch history on BatchSort (1..8 distance shards, 1..4 voting threads, consumer on same/other/late thread, early drop at shutdown) plus the same history on Sort; canonical streams equal; shuttle's deadlock detector and the step bound decide bounded liveness. {common}"),
             _ => format!("one evaluation = one generated history on Sort/BatchSort with a random constraint table: RefSort applies an independent table implementation per call, and a run with a non-binding table is compared with the table-free run. {common}"),
         }
@@ -719,6 +735,10 @@ impl Engine for TrackerEngine {
             ("C05", true) => 50_000,
             ("C06", false) => 1500,
             ("C06", true) => 80_000,
+            ("C13", false) => 1500,
+            ("C13", true) => 60_000,
+            ("C12", false) => 2000,
+            ("C12", true) => 100_000,
             (_, false) => 1500,
             (_, true) => 80_000,
         }
